@@ -5,8 +5,10 @@
   `Attribute.get`, `SetInstance.is_empty / count / __contains__ / __len__ / copy`); tie: `harness/engines/c23.py`.
 -/
 import PonyVerif.Lemmas.Loading
+import PonyVerif.Gen.LoadDecisions
 namespace PonyVerif.Props.C23
 open PonyVerif.Model.Loading
+open PonyVerif.Gen
 
 /-- one loading action (load of one attribute, of whole objects, of a batch of seeds, a prefetch, a batch collection load, a
     probe) keeps the session coherent with the unchanged database, from ANY coherent session -/
@@ -156,6 +158,77 @@ example :
                            .read (.items 1 5), .read (.attr 3 1), .read (.count 1 5)]
       = [(.bool false, .loaded), (.bool true, .cached), (.val (some 2), .cached), (.rows [2, 3], .cached), (.val (some 1), .cached), (.nat 2, .cached)] := by
   decide
+
+/-! ### the model's reads take the decisions of the SOURCE (guards regenerated by harness/gen_c23.py) -/
+/-- `SetInstance.is_empty`: the model answers from the session exactly when the if / elif chain of the source does, with the same answer -/
+theorem C23_is_empty_follows_source (db : Db) (s : Sess) (o : Oid) (c : Attr) :
+    match LoadDecisions.isEmptyShortcut (s.sets o c).isSome (getSet s o c).full (!(getSet s o c).items.isEmpty) (getSet s o c).count.isSome
+            ((getSet s o c).count == some 0) with
+    | some b => (Model.Loading.read db s (.isEmpty o c)).2 = (.bool b, .cached)
+    | none => (Model.Loading.read db s (.isEmpty o c)).2.2 = .loaded := by
+  cases hs : s.sets o c with
+  | none =>
+    simp only [LoadDecisions.isEmptyShortcut, Option.isSome_none, Bool.not_false, if_true, Model.Loading.read, hs]
+    cases canon db (db.coll o c) <;> rfl
+  | some sd =>
+    cases hf : sd.full with
+    | true => simp [LoadDecisions.isEmptyShortcut, Model.Loading.read, hs, getSet, hf]
+    | false =>
+      cases hi : sd.items with
+      | cons x xs => simp [LoadDecisions.isEmptyShortcut, Model.Loading.read, hs, getSet, hf, hi]
+      | nil =>
+        cases hc : sd.count with
+        | some n => simp [LoadDecisions.isEmptyShortcut, Model.Loading.read, hs, getSet, hf, hi, hc]
+        | none =>
+          simp only [LoadDecisions.isEmptyShortcut, Model.Loading.read, hs, getSet, Option.getD_some, hf, hi, hc, Option.isSome_some, Option.isSome_none,
+            Bool.not_true, Bool.false_eq_true, if_false, List.isEmpty_nil, Bool.not_false]
+          cases canon db (db.coll o c) <;> rfl
+
+/-- `count`, `__len__` / iteration, `Attribute.get`: cached exactly when the source's guard says so -/
+theorem C23_count_len_attr_follow_source (db : Db) (s : Sess) (o : Oid) (c a : Attr) :
+    ((Model.Loading.read db s (.count o c)).2.2 = .cached ↔ LoadDecisions.countCached (s.sets o c).isSome (getSet s o c).count.isSome = true) ∧
+    ((Model.Loading.read db s (.len o c)).2.2 = .loaded ↔ LoadDecisions.collNeedsLoad (s.sets o c).isSome (getSet s o c).full = true) ∧
+    ((Model.Loading.read db s (.items o c)).2.2 = .loaded ↔ LoadDecisions.collNeedsLoad (s.sets o c).isSome (getSet s o c).full = true) ∧
+    ((Model.Loading.read db s (.attr o a)).2.2 = .cached ↔ LoadDecisions.attrCached (s.vals o a).isSome = true) := by
+  refine ⟨?_, ?_, ?_, ?_⟩
+  · cases hs : s.sets o c with
+    | none => simp [Model.Loading.read, hs, LoadDecisions.countCached]
+    | some sd => cases hc : sd.count <;> simp [Model.Loading.read, hs, hc, getSet, LoadDecisions.countCached]
+  · cases hs : s.sets o c with
+    | none => simp [Model.Loading.read, hs, LoadDecisions.collNeedsLoad]
+    | some sd => cases hf : sd.full <;> simp [Model.Loading.read, hs, hf, getSet, LoadDecisions.collNeedsLoad]
+  · cases hs : s.sets o c with
+    | none => simp [Model.Loading.read, hs, LoadDecisions.collNeedsLoad]
+    | some sd => cases hf : sd.full <;> simp [Model.Loading.read, hs, hf, getSet, LoadDecisions.collNeedsLoad]
+  · cases hv : s.vals o a <;> simp [Model.Loading.read, hv, LoadDecisions.attrCached]
+
+/-- `__contains__` (collection side): the three early returns of the source, in the source's order -/
+theorem C23_contains_follows_source (db : Db) (s : Sess) (o : Oid) (c : Attr) (i : Oid) :
+    match LoadDecisions.containsShortcut (s.sets o c).isSome (decide (i ∈ (getSet s o c).items)) (getSet s o c).full (decide (i ∈ (getSet s o c).absent)) with
+    | some b => (Model.Loading.read db s (.contains o c i)).2 = (.bool b, .cached)
+    | none => (Model.Loading.read db s (.contains o c i)).2.2 = .loaded := by
+  cases hs : s.sets o c with
+  | none =>
+    simp only [LoadDecisions.containsShortcut, Option.isSome_none, Bool.not_false, if_true, Model.Loading.read, getSet, hs, Option.getD_none, SetData.empty,
+      List.not_mem_nil, if_false, Bool.false_eq_true]
+    split <;> rfl
+  | some sd =>
+    simp only [LoadDecisions.containsShortcut, Option.isSome_some, Bool.not_true, Bool.false_eq_true, if_false, Model.Loading.read, getSet, hs, Option.getD_some]
+    by_cases h1 : i ∈ sd.items
+    · simp [h1]
+    · cases hf : sd.full with
+      | true => simp [h1, hf]
+      | false =>
+        by_cases h3 : i ∈ sd.absent
+        · simp [h1, hf, h3]
+        · simp only [h1, hf, h3, decide_false, Bool.false_eq_true, if_false, Bool.and_false]
+          split <;> rfl
+
+/-- the batch merge of `Set.load` as it is in the source: the phantom check of a member subtracts that member's OWN pending additions,
+    the merge adds the rows that are neither known nor pending removals, every member ends fully loaded with `count = len`
+    (the three facts `mergeLinks` / `loadColl` mirror; regenerated — a slip such as c23-3 breaks this theorem) -/
+theorem C23_batch_merge_follows_source :
+    LoadDecisions.phantomUsesOwnAdded = true ∧ LoadDecisions.mergeSkipsKnownAndRemoved = true ∧ LoadDecisions.batchMarksFull = true := by decide
 
 /-! ### batch loading into collections with pending changes -/
 
